@@ -2,6 +2,7 @@
 # usage: run_all_seeds.sh [pattern] : apply every kept seeded change to /repo in turn, run the quick check of its property, expect exit 1; always revert.
 # Benign refactorings (seeded/benign-*) are expected to leave every check at exit 0.
 pat="${1:-}"
+exec 9>/tmp/agilint_repo.lock; flock 9   # one user of /repo at a time
 cd /repo || exit 9
 if [ -n "$(git status --porcelain --untracked-files=no)" ]; then echo "REPO DIRTY"; exit 9; fi
 bad=0
